@@ -405,6 +405,12 @@ func (encryptor *QueryDataEncryptor) onReturning(ctx context.Context, returning 
 		}
 
 		tableSchema := encryptor.schemaStore.GetTableSchema(columnInfo.Table)
+		// a column of a table without config (`DELETE t1 FROM t1 JOIN t2 .. RETURNING t2.col`): no setting
+		// (the method call on the nil schema was a nil pointer dereference)
+		if tableSchema == nil {
+			querySelectSettings = append(querySelectSettings, nil)
+			continue
+		}
 
 		if columnSetting := tableSchema.GetColumnEncryptionSettings(columnInfo.Name); columnSetting != nil {
 			querySelectSettings = append(querySelectSettings, base.NewQueryDataItem(columnSetting, columnInfo.Table, columnInfo.Name, ""))
